@@ -83,4 +83,3 @@ func cmdRun(args []string) int {
 	return rc
 }
 
-func cmdCheck(args []string) int { return 2 }
